@@ -43,7 +43,16 @@ def run(tier):
     try:
         for si in range(n_specs):
             rows = R.choice([2, 3, 4] if tier == 'quick' else [2, 4, 6, 8])
-            spec = filegen.gen_spec(R, n_lf=1, small=True, rows=rows, vrl=R.choice([8192, 64, 128]), with_index=False)
+            exact_fields = (si % 2 == 1)
+            spec = filegen.gen_spec(R, n_lf=1, small=True, rows=rows, vrl=R.choice([8192, 64, 128]), with_index=False,
+                                    fastpath=exact_fields)
+            if exact_fields:
+                # the structured array holds exactly the frame's fields under the channels' own names, without casts:
+                # only the field ORDER differs from the frame's channel order (and sometimes not even that)
+                for lf in spec['lfs']:
+                    for o in lf['objects']:
+                        if o['kind'] == 'channel':
+                            o['cast_dtype'] = None
             for lf in spec['lfs']:
                 for o in lf['objects']:
                     if o['kind'] == 'channel':
@@ -61,8 +70,9 @@ def run(tier):
                     for ic in ((None, 1, 2) if (lo, hi) in ((0, None), (1, None), (0, rows)) else (None,)):
                         s2 = dict(spec)
                         s2['write'] = dict(spec['write'], data_kind=kind, from_idx=lo, to_idx=hi, input_chunk_size=ic,
-                                           source_opts={'perm_seed': R.randrange(1000), 'extra': R.choice([0, 2]),
-                                                        'tmpdir': tmp})
+                                           source_opts={'perm_seed': R.randrange(1000),
+                                                        'extra': 0 if exact_fields else R.choice([0, 2]),
+                                                        'exact': exact_fields and R.random() < 0.3, 'tmpdir': tmp})
                         res = filegen.write(s2, tmp, fname='w.dlis')
                         case = {'spec_index': si, 'spec': filegen.describe(spec), 'source': kind, 'from_idx': lo,
                                 'to_idx': hi, 'input_chunk_size': ic, 'rows': rows}
